@@ -2,6 +2,7 @@ CONSTANT Mode = "trace"
 CONSTANT MaxSteps = 64
 CONSTANT MaxZero = 3
 CONSTANT RowCounts = {1}
+CONSTANT PadCounts = {}
 CONSTANT NGen = 0
 SPECIFICATION TraceSpec
 INVARIANT TraceConsistent
